@@ -5,7 +5,7 @@ VERIF = os.path.dirname(os.path.dirname(os.path.abspath(__file__)))
 rows = []
 only = sys.argv[1:]
 save = tempfile.mkdtemp(prefix="evid.")
-subprocess.run(["cp", "-a", VERIF + "/evidence/.", save + "/"])
+os.environ["VERIF_EVIDENCE"] = save          # evidence / replays of runs on a changed tree go to a scratch directory
 for d in sorted(glob.glob(VERIF + "/seeded/C*-*")):
     name = os.path.basename(d)
     pid = name.split("-")[0]
@@ -39,9 +39,8 @@ for d in sorted(glob.glob(VERIF + "/seeded/C*-*")):
         rows.append((name, pid, {0: "MISSED", 1: "caught"}.get(p.returncode, "rc=%d" % p.returncode), sig, rp))
     finally:
         subprocess.run(["git", "-C", "/repo", "checkout", "--", "."])
-        shutil.rmtree(VERIF + "/evidence/replays", ignore_errors=True)
+        shutil.rmtree(save + "/replays", ignore_errors=True)
     print(rows[-1]); sys.stdout.flush()
-subprocess.run(["cp", "-a", save + "/.", VERIF + "/evidence/"])
 shutil.rmtree(save, ignore_errors=True)
 if not only:
     with open(VERIF + "/seeded/RESULTS.md", "w") as fh:
